@@ -5,5 +5,5 @@ CONSTANTS
   Design = "repaired"
   Emit = FALSE
 SPECIFICATION Spec
-INVARIANTS TypeOK DoneAfterHandler CleanAfterDone MutexOwner ErrorChanSafe
-PROPERTIES CallReturns CloseCompletes SecondCallReturns ScriptPlayed
+INVARIANTS TypeOK DoneAfterHandler CleanAfterDone MutexOwner ErrorChanSafe TimerSound TimeoutEndsSilence StateLoopEnds
+PROPERTIES CallReturns CloseCompletes SecondCallReturns ScriptPlayed SilenceTimesOut
